@@ -80,7 +80,7 @@ def enclosing(lines, k, want_line=False):
     return ("?", k) if want_line else "?"
 
 
-LOCAL_DECL = re.compile(r"(?:^|[;{]\s*)(?:auto|[A-Za-z_][\w:]*)(?:\s+const)?\s*(?:&&?|\*)?\s+([a-z_]\w*)\s*(?:=[^=]|\{)")
+LOCAL_DECL = re.compile(r"(?:^\s*|[;{]\s*)(?:auto|[A-Za-z_][\w:]*)(?:\s+const)?\s*(?:&&?|\*)?\s+([a-z_]\w*)\s*(?:=[^=]|\{)")
 
 
 def rename_locals(lines, k, expr):
